@@ -294,8 +294,10 @@ def _loop(run, P):
            construct="Python: range(lbound, ubound)",
            why="same interval as the interpreter")
     h = P.func("dagrt.exec_numpy.NumpyInterpreter.exec_Assign")
-    src = ast.unparse(h.node)
-    ok = "range(self.eval_mapper(start), self.eval_mapper(stop))" in src
+    from .util import find
+    ok = False
+    for n_, b_ in find("V_i, V_a, V_b = V_loops[0]", h.node):
+        ok = ok or bool(find(f"range(self.eval_mapper({b_['V_a']}), self.eval_mapper({b_['V_b']}))", h.node))
     run.ob("C03.loop", h, h.node, ok,
            construct="interpreter: range(start, stop)",
            why="reference semantics")
